@@ -304,9 +304,16 @@ class DistributedNetwork(BaseManager):
         # Let the child know where we are in the distributed tree
         root, level = self._get_advertised_branch_values()
 
-        await peer.connection.send_message(DistributedBranchLevel.Request(level))
+        # The messages are sent together instead of awaited one by one: if
+        # sending blocks (slow peer) the branch values could change in the
+        # meantime (parent lost or announcing new values) and the values sent
+        # after the wait would overwrite the update the child received for that
+        # change
+        messages: list[MessageDataclass] = [DistributedBranchLevel.Request(level)]
         if level != 0:
-            await peer.connection.send_message(DistributedBranchRoot.Request(root))
+            messages.append(DistributedBranchRoot.Request(root))
+        await asyncio.gather(
+            *[peer.connection.send_message(message) for message in messages])
 
         logger.debug(
             "added distributed connection as child (%d / %d children) : %s",
